@@ -304,7 +304,7 @@ def afterPoll (fuel n : Nat) (sa : Option Nat) : Conn × PRes → Conn × String
         | none => (c, "STALL")
 
 theorem runTask_succ' (fuel : Nat) (c : Conn) (n : Nat) (sa : Option Nat) :
-    runTask (fuel + 1) c n sa = afterPoll fuel n sa (pollConn 100000 (prePoll c n sa)) := by
+    runTask (fuel + 1) c n sa = afterPoll fuel n sa (pollConn (connFuel (prePoll c n sa)) (prePoll c n sa)) := by
   rw [runTask_succ]; rfl
 
 /-- the write log of a run only grows -/
@@ -359,13 +359,14 @@ theorem runTask_dich {xs : List WrAns} (hx : BadHead xs) : ∀ (fuel : Nat) (c :
       c2.env.tr.wlog <+: (runTask fuel c n sa).1.env.tr.wlog)
   | 0, c, n, sa, _ => Or.inl rfl
   | fuel + 1, c, n, sa, hp => by
-    rw [runTask_succ', runTask_succ', prePoll_ext]
+    rw [runTask_succ', runTask_succ', prePoll_ext,
+      show connFuel (extC xs (prePoll c n sa)) = connFuel (prePoll c n sa) from rfl]
     have hp0 : AllProp (prePoll c n sa) :=
       allProp_of_frame (prePoll_frame c n sa).1 (prePoll_frame c n sa).2 hp
-    have hp1 := pollConn_allProp 100000 _ hp0
-    rcases pollConn_dich hx 100000 _ hp0 with hs | ⟨c2, h2, hph, hpre⟩
+    have hp1 := pollConn_allProp (connFuel (prePoll c n sa)) _ hp0
+    rcases pollConn_dich hx (connFuel (prePoll c n sa)) _ hp0 with hs | ⟨c2, h2, hph, hpre⟩
     · rw [hs]
-      rcases hpc : pollConn 100000 (prePoll c n sa) with ⟨c1, r⟩
+      rcases hpc : pollConn (connFuel (prePoll c n sa)) (prePoll c n sa) with ⟨c1, r⟩
       rw [hpc] at hp1
       simp only at hp1 ⊢
       cases r with
@@ -402,7 +403,7 @@ theorem runTask_dich {xs : List WrAns} (hx : BadHead xs) : ∀ (fuel : Nat) (c :
     · right
       rw [h2]
       refine ⟨c2, rfl, hph, ?_⟩
-      rcases hpc : pollConn 100000 (prePoll c n sa) with ⟨c1, r⟩
+      rcases hpc : pollConn (connFuel (prePoll c n sa)) (prePoll c n sa) with ⟨c1, r⟩
       rw [hpc] at hp1 hpre
       obtain ⟨w, hw⟩ := afterPoll_llog fuel n sa c1 r hp1
       rw [hw]
